@@ -100,7 +100,7 @@ def build(case):
                                'sdisc_race_sever'):
                 life['end'] = 'sever'
     if sub == 'c08':
-        if cfg.get('disc_emits'):
+        if cfg.get('disc_emits') or cfg.get('connect_emits'):
             cfg['coroutine'] = True     # (the emit from the disconnect
             #                             handler is awaited inline)
     if sub == 'c12':
